@@ -5,4 +5,4 @@ Require Extraction.
 Require Import ExtrOcamlBasic ExtrOcamlString.
 Extraction Language OCaml.
 Extraction "../ocaml/c05/model.ml" sort_ring assoc_opt tokens_distinct plan_matches pick_matches
-  group_of group_with all_nodes local_nodes rep_local rep_any lwt_sequence min_group mem nodupb permitted computed_shard assoc_pair two_reads_matches.
+  group_of group_with all_nodes local_nodes rep_local rep_any lwt_sequence min_group mem nodupb permitted computed_shard assoc_pair two_reads_matches two_reads_safe_b.
